@@ -75,6 +75,22 @@ Fixpoint overlaying_iter (u : list (bytes * bytes)) : list (bytes * option bytes
         end
     end.
 
+(* the same iterator at any key / value type (used by list_partition_keys on DbPartitionKey, ()) *)
+Fixpoint overlaying_iter_gen {K V : Type} (ltb : K -> K -> bool) (u : list (K * V)) : list (K * option V) -> list (K * V) :=
+  fix go (o : list (K * option V)) : list (K * V) :=
+    match o with
+    | [] => u
+    | (ko, change) :: o' =>
+        let emit rest := match change with Some v => (ko, v) :: rest | None => rest end in
+        match u with
+        | [] => emit (go o')
+        | (ku, vu) :: u' =>
+            if ltb ku ko then (ku, vu) :: overlaying_iter_gen ltb u' o
+            else if ltb ko ku then emit (go o')
+            else emit (overlaying_iter_gen ltb u' o')
+        end
+    end.
+
 Definition change_of (u : db_update) : option bytes :=
   match u with USet v => Some v | UDelete => None end.
 
@@ -115,5 +131,19 @@ Definition ov_list (o : overlay) (pk : pkey) (from : option bytes) : list (bytes
 (* commit_overlay_into_root_store *)
 Definition ov_commit_into_root (o : overlay) : overlay :=
   {| ov_staging := []; ov_root := mem_commit (ov_root o) (from_staging (ov_staging o)) |}.
+
+(* ListableSubstateDatabase::list_partition_keys of the overlay:
+     overlying  = staged node keys x staged partition numbers (BTreeMap order), each mapped to Some(())
+     underlying = root.list_partition_keys() mapped to ((), )
+     OverlayingIterator(underlying, overlying).map(|(key, _)| key) *)
+Definition ov_list_partition_keys (o : overlay) : list pkey :=
+  let overlying :=
+    flat_map (fun e : bytes * staging_node =>
+                map (fun e' : N * staging_part => ((fst e, fst e'), Some tt)) (snd e)) (ov_staging o) in
+  let underlying := map (fun pk => (pk, tt)) (mem_list_partition_keys (ov_root o)) in
+  map fst (overlaying_iter_gen pk_ltb underlying overlying).
+
+(* database_updates() / into_database_updates() / deconstruct().1 : self.overlay.into() *)
+Definition ov_database_updates (o : overlay) : db_updates := from_staging (ov_staging o).
 
 Definition ov_run (base : memdb) (cs : list db_updates) : overlay := fold_left ov_commit cs (overlay_new base).
